@@ -124,6 +124,16 @@ class TreeVol(Suite):
             for _ in range(1 if not big else 4):
                 t = collinear_case(rng, "arms", n)
                 out.append({"class": "arms", "tree": t, "levels": [1, 2, 3, 4] + ([5] if rng.random() < 0.5 or big else []), "collinear": True})
+        # far from the origin (coordinates ~1e6, compartments a few units long): tolerance-based "same point"
+        # tests must not confuse the two ends of a compartment
+        for n in [2, 3, 5]:
+            for x0 in ([1.0e6, -2.0e6] if not big else [1.0e6, -2.0e6, 3.0e6, -1.5e6]):
+                t = collinear_case(rng, "chain", n)
+                xs = [0.0]
+                for i in range(1, n):
+                    xs.append(xs[-1] + float(math.ceil(max(t["r"][i - 1], t["r"][i]) + rng.choice([0, 1, 2]))))
+                t["xyz"] = [[x0 + x, 0.0, 0.0] for x in xs]
+                out.append({"class": "far", "tree": t, "levels": [1, 2, 3, 4], "collinear": True})
         k = 0
         for n in [1, 2, 5, 12] + ([40] if big else []):
             for _ in range(2 if not big else 6):
